@@ -4,6 +4,7 @@
 package simchain
 
 import (
+	"sort"
 	"crypto/sha256"
 	"encoding/binary"
 	"errors"
@@ -108,6 +109,17 @@ func (n *Node) Confirmed(txid chainhash.Hash) int32 {
 func (n *Node) InMempool(txid chainhash.Hash) bool { return n.inPool[txid] }
 
 func (n *Node) Tx(txid chainhash.Hash) *wire.MsgTx { return n.txByID[txid] }
+
+// KnownTxIDs lists every transaction the node ever saw (any branch, mempool,
+// evicted), sorted.
+func (n *Node) KnownTxIDs() []chainhash.Hash {
+	out := make([]chainhash.Hash, 0, len(n.txByID))
+	for id := range n.txByID {
+		out = append(out, id)
+	}
+	sort.Slice(out, func(i, j int) bool { return out[i].String() < out[j].String() })
+	return out
+}
 
 // Errors of mempool acceptance.
 var (
